@@ -11,7 +11,7 @@ from gen import Gen, BOOL
 
 S = Sym
 PROPERTY = 'C11'
-PROPS_MODULES = ['C11']
+PROPS_MODULES = ['C11', 'C14d']
 ASSUMPTIONS = ['metadata dictionaries are compared by content here; sharing/identity of metadata is the subject of C16']
 ONLY_SIMPLE_ACTIVATOR = False
 
